@@ -961,11 +961,7 @@ func g05Net(repo string, w *Out) error {
 		return err
 	}
 	dsrc := f.Src(dc.Body)
-	i1 := strings.Index(dsrc, "if d.rd != nil { network, address = d.rd(network, address) }")
-	i2 := strings.Index(dsrc, "d.dialContext(ctx, network, address)")
-	if i1 < 0 || i2 < i1 {
-		return fmt.Errorf("Dialer.DialContext: `if d.rd != nil { network, address = d.rd(network, address) }` before d.dialContext(ctx, network, address) not found")
-	}
+	const rdStmt = "if d.rd != nil { network, address = d.rd(network, address) }"
 	nd, err := f.Func("NewDialer")
 	if err != nil {
 		return err
@@ -973,17 +969,34 @@ func g05Net(repo string, w *Out) error {
 	if !strings.Contains(f.Src(nd.Body), "rd: cfg.RedirectFunc,") {
 		return fmt.Errorf("NewDialer: rd: cfg.RedirectFunc not found")
 	}
-	// dialContext: every attempt dials the same (network, address)
 	di, err := f.Func("Dialer.dialContext")
 	if err != nil {
 		return err
 	}
 	isrc := f.Src(di.Body)
-	if !strings.Contains(isrc, "conn, err := dial(ctx, network, address)") || strings.Count(isrc, "dial(ctx,") != 1 {
+	// two known places for the redirect: once in DialContext before the retry loop is entered, or inside the
+	// retry loop of dialContext before each attempt (then a retry maps the already mapped address again)
+	i1 := strings.Index(dsrc, rdStmt)
+	i2 := strings.Index(dsrc, "d.dialContext(ctx, network, address)")
+	iLoop := strings.Index(isrc, "for i := 0; i < attempts; i++ {")
+	iIn := strings.Index(isrc, rdStmt)
+	iDial := strings.Index(isrc, "conn, err := dial(ctx, network, address)")
+	var inLoop bool
+	switch {
+	case i1 >= 0 && i2 > i1 && iIn < 0:
+		inLoop = false
+	case i1 < 0 && i2 >= 0 && iLoop >= 0 && iIn > iLoop && iDial > iIn:
+		inLoop = true
+	default:
+		return fmt.Errorf("Dialer: the redirect `%s` is neither applied once in DialContext before d.dialContext(ctx, network, address) nor inside dialContext's retry loop before the attempt", rdStmt)
+	}
+	w.DefBool("redirect_in_retry_loop", inLoop)
+	// dialContext: attempts <= 0 means 1; every attempt dials (network, address); the first success ends the loop
+	if iDial < 0 || strings.Count(isrc, "dial(ctx,") != 1 {
 		return fmt.Errorf("Dialer.dialContext: the single `dial(ctx, network, address)` inside the retry loop not found")
 	}
 	if !strings.Contains(isrc, "attempts := d.rt.Attempts if attempts <= 0 { attempts = 1 } for i := 0; i < attempts; i++ {") ||
-		!strings.Contains(isrc, "if err == nil { return conn, nil }") {
+		!regexp.MustCompile(`if err == nil \{ return conn, (address, )?nil \}`).MatchString(isrc) {
 		return fmt.Errorf("Dialer.dialContext: retry loop (attempts <= 0 means 1; stop at the first success) is not the shape the model transcribes")
 	}
 	w.DefBool("dialer_redirects_every_dial", true)
